@@ -114,6 +114,7 @@ func runC18(run *Run, replay string) {
 	if run.Thorough {
 		bases, posN = 400, 60
 	}
+	crossFileFocusCases(run)
 	inserts := []string{"\n", "# comment\n", "// c\n", "# コメント é\n", "\n\n# two\n", "// é\n\n",
 		strings.Repeat("# a longer block of comment lines\n", 9), strings.Repeat("\n", 40) + "// é\n"}
 	for bi := 0; bi < bases; bi++ {
